@@ -459,6 +459,10 @@ pub fn scan_repository_multi(
         file_entries.push(path);
     }
 
+    // Nested or repeated search roots make the walker visit the same file more than once
+    let mut seen_files = std::collections::HashSet::new();
+    file_entries.retain(|p| seen_files.insert(p.clone()));
+
     let outcomes: Vec<FileOutcome> = file_entries
         .par_iter()
         .map(|path| {
@@ -614,6 +618,9 @@ pub fn scan_repository_multi(
             }
             all_renames.append(&mut root_renames);
         }
+        // ... and plan the same entry's rename once per root that contains it
+        let mut seen_paths = std::collections::HashSet::new();
+        all_renames.retain(|r| seen_paths.insert(r.path.clone()));
         all_renames
     } else {
         vec![]
